@@ -5,6 +5,7 @@ package main
 
 import (
 	"fmt"
+	"go/constant"
 	"go/token"
 	"go/types"
 
@@ -1509,22 +1510,22 @@ func rulePoolDrain(c *Ctx, rule string) {
 	clear := c.fn("morass", "(*Morass).Clear")
 	recvs := 0
 	for _, cf := range pkgReach(clear) {
-	for _, b := range cf.Blocks {
-		for _, ins := range b.Instrs {
-			switch x := ins.(type) {
-			case *ssa.UnOp:
-				if x.Op == token.ARROW && loadOfField(x.X, morassPkg, "Morass", "pool") {
-					recvs++
-				}
-			case *ssa.Select:
-				for _, st := range x.States {
-					if st.Dir == types.RecvOnly && loadOfField(st.Chan, morassPkg, "Morass", "pool") {
+		for _, b := range cf.Blocks {
+			for _, ins := range b.Instrs {
+				switch x := ins.(type) {
+				case *ssa.UnOp:
+					if x.Op == token.ARROW && loadOfField(x.X, morassPkg, "Morass", "pool") {
 						recvs++
+					}
+				case *ssa.Select:
+					for _, st := range x.States {
+						if st.Dir == types.RecvOnly && loadOfField(st.Chan, morassPkg, "Morass", "pool") {
+							recvs++
+						}
 					}
 				}
 			}
 		}
-	}
 	}
 	// sends that are not matched inside the cycle: count sends on pool in the package
 	sends := 0
@@ -1699,11 +1700,8 @@ func ruleNoSkip(c *Ctx, rule string, targets [][2]string) {
 func byteSliceLiteral(v ssa.Value) []byte {
 	switch x := v.(type) {
 	case *ssa.Convert:
-		if k, ok := x.X.(*ssa.Const); ok && k.Value != nil {
-			s := k.Value.ExactString()
-			if len(s) >= 2 && s[0] == '"' {
-				return []byte(s[1 : len(s)-1])
-			}
+		if k, ok := x.X.(*ssa.Const); ok && k.Value != nil && k.Value.Kind() == constant.String {
+			return []byte(constant.StringVal(k.Value))
 		}
 	case *ssa.Slice:
 		if a, ok := x.X.(*ssa.Alloc); ok {
@@ -1727,11 +1725,8 @@ func byteSliceLiteral(v ssa.Value) []byte {
 			return out
 		}
 	case *ssa.Const:
-		if x.Value != nil {
-			s := x.Value.ExactString()
-			if len(s) >= 2 && s[0] == '"' {
-				return []byte(s[1 : len(s)-1])
-			}
+		if x.Value != nil && x.Value.Kind() == constant.String {
+			return []byte(constant.StringVal(x.Value))
 		}
 	}
 	return nil
